@@ -43,7 +43,8 @@ class PathResolver:
         try:
             if file_path.is_absolute():
                 return file_path.relative_to(self.project_root)
-            return file_path
+            # A relative spelling is relative to the working directory, not to the project root
+            return (Path.cwd() / file_path).relative_to(self.project_root)
         except ValueError:
             # If path is outside project root, return it as-is
             # This allows detection of absolute paths in global_deny patterns
